@@ -37,6 +37,8 @@ T = {
  "C18-2": ("C18", "rollover rejected for overflow has already recorded the seal", "a rollover whose count overflows the cumulative offset"),
  "C20-1": ("C20", "snapshot cache not invalidated by re-registration of a node with a new address", "an earlier snapshot, then UpsertNode of a known id with a new address, then snapshot"),
  "C20-2": ("C20", "restore validates node addresses as SocketAddr", "a registered node address with a host name"),
+ "C21-1": ("C21", "read_all's batch byte budget cut from 10 MiB to 1 MiB (`RECOVERY_BATCH_BYTES`)", "one WAL record larger than 1 MiB (a large client proposal) followed by a restart: replay stops in front of it"),
+ "C21-2": ("C21", "vendored engine copy: batch read records the resume block index per planned range instead of per parsed entry", "a Raft log spanning more than one 10 MiB engine block with fewer than 2000 records per block, restart: only the first block is replayed"),
  "C24-1": ("C24", "oversized-frame drain reads unbounded chunks", "oversized frame whose body is sent, pipelined following frames, body length not a multiple of the chunk size"),
  "C24-2": ("C24", "per-token trimming removes the payload's leading whitespace", "payload beginning with whitespace"),
  "C25-1": ("C25", "parse_wal_key splits at the first `_s_`", "topic whose key contains `_s_` before the separator (name contains `_s_`, ends in `_s`, is `s`, starts with `s_`)"),
